@@ -169,12 +169,15 @@ def type_pattern(n, variant):
 
 
 def receiver_case(idxs, cuts, order, little, types=None, early=0,
-                  joined=False):
+                  joined=False, nested_at=None):
     """order: sequence of 'F' / 'C' saying which stream's next event comes;
     early: that many descriptors arrive before the read that completes the
     handshake (a client that writes BEGIN and its first message in one go);
     joined: the end of the handshake and the first message bytes share a
-    read"""
+    read; nested_at: the handler of message number nested_at takes delivery
+    of everything that is still to come (descriptors and reads, in order)
+    before it returns - what happens when a handler talks to its peer over
+    an in-memory transport"""
     msgs = _mk(idxs)
     types = types or (1,) * len(msgs)
     raws = []
@@ -207,15 +210,32 @@ def receiver_case(idxs, cuts, order, little, types=None, early=0,
                 p.dataReceived(c04.SERVER_HS[-7:])
         else:
             p.dataReceived(c04.SERVER_HS)
+        events = []
         for o in order:
             if o == 'F':
-                p.fileDescriptorReceived(allfds[fi])
+                events.append(('F', allfds[fi]))
                 fi += 1
             else:
-                p.dataReceived(chunks[ci])
+                events.append(('C', chunks[ci]))
                 ci += 1
-        p.fileDescriptorReceived(777)
-        p.dataReceived(raws[-1])
+        events.append(('F', 777))
+        events.append(('C', raws[-1]))
+        pos = [0]
+
+        def pump():
+            while pos[0] < len(events):
+                kind, x = events[pos[0]]
+                pos[0] += 1
+                if kind == 'F':
+                    p.fileDescriptorReceived(x)
+                else:
+                    p.dataReceived(x)
+        if nested_at is not None:
+            def hook(proto):
+                if len(proto.got) == nested_at + 1:
+                    pump()
+            p.hook = hook
+        pump()
     except Exception as e:
         return [('receiver-raises-%s' % type(e).__name__,
                  'raised %r' % (e,))]
@@ -312,6 +332,33 @@ def _explore_stream(res, si, idxs, quick, variant):
             if 'F' in order and order.index('F') > 0:
                 res.count('nontrivial')
             res.outcome(''.join(order))
+    # nested delivery: the handler of message j takes delivery of everything
+    # still to come before it returns (no cut, and a cut in the middle of
+    # the last message)
+    if len(idxs) >= 2:
+        for cuts in ((), (total - lens[-1] // 2,)):
+            bounds = list(cuts) + [total]
+            chunk_ends = [next(i for i, b in enumerate(bounds) if e <= b)
+                          for e in ends]
+            for order in _orders(msgs, chunk_ends, len(bounds)):
+                for j in range(len(idxs) - 1):
+                    found = receiver_case(idxs, cuts, order, little, types,
+                                          nested_at=j)
+                    n_exec += 1
+                    res.count('nontrivial')
+                    for tag, what in found:
+                        res.violation(
+                            '%s/receiver/nested/%s' % (PROP, tag),
+                            'messages %r (types %r), cuts %r, arrival order '
+                            '%s, everything behind message %d delivered '
+                            'from inside its handler: %s'
+                            % ([BODIES[i][0] for i in idxs], list(types),
+                               list(cuts), ''.join(order), j, what),
+                            {'part': 'recv', 'idxs': list(idxs),
+                             'cuts': list(cuts), 'order': ''.join(order),
+                             'little': little, 'types': list(types),
+                             'nested_at': j},
+                            size=len(idxs) * 100 + len(order))
     # descriptors that arrive before the handshake is complete (the client
     # wrote BEGIN and its first messages in one go)
     nf = sum(len(f) for (_, _, f) in msgs)
@@ -504,7 +551,9 @@ def run(ctx):
         'message, and schedules in which the first descriptors arrive '
         'before the read that completes the handshake (BEGIN alone or in one '
         'read with message bytes); a trailing probe message checks that exactly the declared '
-        'count was consumed. Messages carrying 16..1024 descriptors each '
+        'count was consumed. Nested delivery: the handler of a message '
+        'takes delivery of everything still to come before it returns. '
+        'Messages carrying 16..1024 descriptors each '
         '(one to three in a row), all descriptors ahead of the first read or '
         'each message\'s just before it. state = message sequence; transition = one '
         'executed schedule; non-trivial = at least one descriptor arrives '
@@ -532,5 +581,6 @@ def replay(data):
                           tuple(data['order']), data['little'],
                           tuple(data.get('types') or ()) or None,
                           early=data.get('early', 0),
-                          joined=data.get('joined', False))
+                          joined=data.get('joined', False),
+                          nested_at=data.get('nested_at'))
     return [('%s/receiver/%s' % (PROP, t), w) for t, w in found]
